@@ -25,7 +25,7 @@ def isKeyword (s : String) : Bool := rustKeywords.contains s
 /-- `BasicType::as_safe_string` (also its `Display`) -/
 def BasicType.asSafeString : BasicType → String
   | .ident v =>
-    let name := if v == "TRUE" || v == "FALSE" then v.toLower else v
+    let name := if v == "TRUE" then "true" else if v == "FALSE" then "false" else v
     if isKeyword name then name ++ "_v" else name
   | t => t.asStr
 
